@@ -170,12 +170,26 @@ def run(ctx):
         r = random.Random(case["seed"])
         tname = r.choice(list(SPECS))
         cls, spec = SPECS[tname]
+        if r.random() < 0.15:
+            # a dynamically made table type: the same few field names come back with other column types in the same process
+            TYPES = {"int": int, "str": str, "float": float, "ints": List[int], "dna": DNAEncoding, "bool": bool, "id": SequenceID}
+            names = r.sample(["c0", "c1", "c2"], r.choice([1, 2, 3]))
+            spec = [(nm, r.choice(list(TYPES))) for nm in sorted(names)]
+            cls = make_dataclass([(nm, TYPES[k]) for nm, k in spec]) if r.random() < 0.7 else make_dataclass([(nm, TYPES[k]) for nm, k in spec], "Dyn")
+            tname = "DynamicDC"
+            declared = [f.type for f in dataclasses.fields(cls)]
+            ctx.check("dynamic-declared-types", declared == [TYPES[k] for _, k in spec], "DynamicDC/declared-field-types-differ", "make_dataclass(%r) reports field types %r" % (spec, declared), {"spec": spec, "declared": [str(d) for d in declared]}, None)
         n = r.choice([0, 1, 1, 2, 3, 6])
         rows = [gen_row(r, spec) for _ in range(n)]
         t = build(cls, spec, rows)
         model = model_rows(spec, rows)
         init = {"type": tname, "rows": [list(map(str, x)) for x in rows][:6]}
         history = []
+        # blind programs: a table-valued result is handed to the next operation without the harness reading it (reading flattens lazy
+        # row selections of ragged columns and fills caches); only the end of the chain and the row-valued operations are judged
+        blind = r.random() < 0.4
+        pending = None
+        init["blind"] = blind
         wit0 = dict(init)
         got = observed_rows(t, spec)
         ctx.check("construct", eq_rows(got, model), "%s/construct" % tname, "constructed table rows %r differ from the values given %r" % (got[:3], model[:3]), wit0, (tname, repr(rows)) if n >= 2 else None)
@@ -191,7 +205,7 @@ def run(ctx):
                 ops.append("add_fields")
             op = r.choice(ops)
             nt = (tname, repr(rows), repr(history), op) if n >= 2 else None
-            before = observed_rows(t, spec)
+            before = observed_rows(t, spec) if not blind else None
             wit = dict(init, program=history + [op])
             opkey = "%s.%s" % (tname if tname in ("Nested", "Pair", "Mixed", "Bed12", "SequenceEntryWithQuality") else "table", op)
             try:
@@ -238,7 +252,7 @@ def run(ctx):
                     ok = sorted(map(canon, g)) == sorted(map(canon, model)) and all(a <= b for a, b in zip(keys, keys[1:]))
                     ctx.check(opkey, ok, "%s/not-sorted-permutation" % opkey, "sort_by(%s) gave %r" % (f, g[:5]), dict(wit, got=[list(map(str, x)) for x in g][:8]), nt)
                     m2 = [tuple(x) for x in g] if ok else None
-                    if not eq_rows(observed_rows(t, spec), before):
+                    if not blind and not eq_rows(observed_rows(t, spec), before):
                         ctx.violation("%s/operand-mutated" % opkey, "sort_by changed its operand", wit)
                     if ok:
                         t, model = res, g
@@ -285,7 +299,7 @@ def run(ctx):
                     g = observed_rows(res2, spec)
                     ex = np.asarray(res2.extra).tolist()
                     ctx.check(opkey, eq_rows(g, model) and ex == newv and col_lengths_ok(res2), "%s/add_fields" % opkey, "add_fields changed existing rows or lost the new column", wit, nt)
-                    if not eq_rows(observed_rows(t, spec), before) or hasattr(t, "extra"):
+                    if (not blind and not eq_rows(observed_rows(t, spec), before)) or hasattr(t, "extra"):
                         ctx.violation("%s/operand-mutated" % opkey, "add_fields changed its operand", wit)
                     continue
                 elif op == "todict":
@@ -313,6 +327,11 @@ def run(ctx):
                 ctx.violation("%s/raised:%s@%s" % (opkey, et, site), "%s raised %s: %s" % (opkey, et, str(e)[:120]), dict(wit, error=str(e)[:200]))
                 return
             # table-valued result
+            if blind:
+                t, model = res, m2
+                pending = (opkey, dict(wit, program=list(history)), nt)
+                ctx.count("blind_steps")
+                continue
             try:
                 g = observed_rows(res, spec)
             except Exception as e:
@@ -326,6 +345,19 @@ def run(ctx):
             if not ok:
                 return
             t, model = res, m2
+        if blind and pending is not None:
+            opkey, wit, nt = pending
+            try:
+                g = observed_rows(t, spec)
+            except Exception as e:
+                if not originates_in_library(e):
+                    raise
+                ctx.judged("chain-end", nt)
+                ctx.violation("chain-end.%s/result-unreadable:%s" % (opkey, type(e).__name__), "the end of an unobserved chain cannot be read: %s" % str(e)[:100], wit)
+                return
+            ctx.check("chain-end", eq_rows(g, model), "chain-end.%s/rows-differ-from-model" % opkey, "unobserved chain ending in %s: got %r expected %r" % (opkey, g[:3], model[:3]),
+                      dict(wit, got=[list(map(str, x)) for x in g][:8], expected=[list(map(str, x)) for x in model][:8]), nt)
+            ctx.check("equal-lengths", col_lengths_ok(t), "chain-end.%s/columns-of-unequal-length" % opkey, "columns of unequal length at the end of a chain", wit, None)
 
     def construction(case):
         r = random.Random(case["seed"])
@@ -352,7 +384,7 @@ def run(ctx):
         except Exception:
             ctx.judged("construct-raises", "dna")
 
-    for i in range(ctx.share(ctx.pick(1500, 40000))):
+    for i in range(ctx.share(ctx.pick(6000, 80000))):
         ctx.run_case(program, {"seed": rng.randrange(2 ** 40)})
     if ctx.shard == 0:
         ctx.run_case(construction, {"seed": 1})
